@@ -135,7 +135,7 @@ theorem sameChans_recvUnrel {c : Conn} {ch : Nat} {r : RecvUnrel} (hf : SMap.fin
 
 theorem sameChans_acks_dw (c : Conn) (A : List AckRange) (r : Reason) :
     c.SameChans (({ c with pendingAcks := A } : Conn).disconnectWith r) :=
-  sameChans_dw_of (c2 := { c with pendingAcks := A }) (sameChans_of_eq rfl rfl rfl rfl rfl) r
+  sameChans_dw_of (c := c) (c2 := { c with pendingAcks := A }) (sameChans_of_eq rfl rfl rfl rfl rfl) r
 
 /-! ## small facts -/
 
@@ -867,6 +867,655 @@ theorem getPacketsToSend_drainsP {P} {c c' : Conn} {out : List Bytes} (h : c.Inv
   intro ch hch s' hs'
   rw [e1] at hs'
   exact u3 ch hch s' hs'
+
+
+theorem getPacketsToSend_sameChansP {P} {c c' : Conn} {out : List Bytes} (h : c.InvP P)
+    (hr : c.getPacketsToSend = .ok (c', out)) : c.SameChans c' := by
+  cases hd : c.isDisconnected with
+  | true =>
+    unfold Conn.getPacketsToSend at hr; rw [hd] at hr
+    simp only [if_true, Res.ok.injEq, Prod.mk.injEq] at hr
+    obtain ⟨rfl, -⟩ := hr; exact Conn.SameChans.refl _
+  | false =>
+    obtain ⟨sr, su, pk, seq, avail, hl, e1, e2, e3, -, -, e6, e7⟩ := getPacketsToSend_shape hd hr
+    obtain ⟨-, -, -, -, u5, u6⟩ := chanLoop_unrel _ _ _ _ _ _ _ _ _ _ _ _ hl h.sendUnrel
+    exact ⟨fun k => by rw [e6]; exact u6 k, fun k => by rw [e1]; exact u5 k, fun _ => by rw [e2],
+      fun _ => by rw [e3], e7⟩
+
+/-! ## every public operation, and sequences of them -/
+
+/-- the channel id an operation names exists (the documented contract of `send_message` / `receive_message`) -/
+def ChanValid (c : Conn) : SL.ConnOp → Prop
+  | .sendMessage ch _ => c.hasSend ch
+  | .receiveMessage ch => c.hasRecv ch
+  | _ => True
+
+theorem ChanValid.same {c c' : Conn} (h : c.SameChans c') {op : SL.ConnOp} (hv : ChanValid c op) : ChanValid c' op := by
+  cases op <;> first | trivial | exact (h.hasSend _).mpr hv | exact (h.hasRecv _).mpr hv
+
+def isFlush : SL.ConnOp → Bool
+  | .getPacketsToSend => true
+  | _ => false
+
+/-- one operation: returns normally, keeps the invariant and the channel tables' key sets.  The only side
+    condition besides valid channel ids is `CountersOK` for a flush (counters below 2^62). -/
+theorem apply_totalP {P} (hP : GoodP P) {c : Conn} (h : c.InvP P) (op : SL.ConnOp) (hv : ChanValid c op)
+    (hc : isFlush op = true → c.CountersOK) :
+    ∃ c', op.apply c = .ok c' ∧ c'.InvP P ∧ c.SameChans c' := by
+  cases op with
+  | setConnected => exact ⟨_, rfl, h.setConnected, sameChans_setConnected c⟩
+  | setConnecting => exact ⟨_, rfl, h.setConnecting, sameChans_setConnecting c⟩
+  | disconnect => exact ⟨_, rfl, h.disconnectWith _, sameChans_dw c _⟩
+  | disconnectWith r => exact ⟨_, rfl, h.disconnectWith _, sameChans_dw c _⟩
+  | sendMessage ch m =>
+    obtain ⟨c', e, i, -, sc⟩ := sendMessage_totalP h ch m hv
+    exact ⟨c', e, i, sc⟩
+  | receiveMessage ch =>
+    obtain ⟨c', m, e, i, -, sc⟩ := receiveMessage_totalP h ch hv
+    exact ⟨c', by simp only [SL.ConnOp.apply, e, SL.Res.stateOf], i, sc⟩
+  | processPacket b =>
+    obtain ⟨c', e, i, -, sc⟩ := processPacket_totalP hP h b
+    exact ⟨c', e, i, sc⟩
+  | getPacketsToSend =>
+    obtain ⟨c', out, e, i, -, -⟩ := getPacketsToSend_totalP h (hc rfl)
+    exact ⟨c', by simp only [SL.ConnOp.apply, e, SL.Res.stateOf], i, getPacketsToSend_sameChansP h e⟩
+  | update dt =>
+    obtain ⟨c', e, i, -, -, -, sc, -⟩ := update_totalP h dt
+    exact ⟨c', e, i, sc⟩
+
+/-- for every flush of the sequence, the counters are in range in the state in which the flush is called -/
+def FlushOK (c : Conn) : List SL.ConnOp → Prop
+  | [] => True
+  | op :: rest => (isFlush op = true → c.CountersOK) ∧ ∀ c', op.apply c = .ok c' → FlushOK c' rest
+
+/-- **"subsequent API calls keep working"**: any sequence of public operations with valid channel ids — hostile
+    bytes anywhere — runs to completion without unwinding and ends in a state satisfying the invariant.  For each
+    flush in the sequence the counters must be in range in the state in which it is called (`FlushOK`). -/
+theorem runOps_totalP {P} (hP : GoodP P) : ∀ (ops : List SL.ConnOp) (c : Conn), c.InvP P →
+    (∀ op ∈ ops, ChanValid c op) → FlushOK c ops →
+    ∃ c', SL.Conn.runOps c ops = .ok c' ∧ c'.InvP P ∧ c.SameChans c'
+  | [], c, h, _, _ => ⟨c, rfl, h, Conn.SameChans.refl c⟩
+  | op :: rest, c, h, hv, hc => by
+    obtain ⟨c1, e1, i1, s1⟩ := apply_totalP hP h op (hv op (List.mem_cons_self ..)) hc.1
+    obtain ⟨c2, e2, i2, s2⟩ := runOps_totalP hP rest c1 i1
+      (fun o ho => ChanValid.same s1 (hv o (List.mem_cons_of_mem _ ho))) (hc.2 c1 e1)
+    exact ⟨c2, by simp only [SL.Conn.runOps, e1]; exact e2, i2, s1.trans s2⟩
+
+theorem flushOK_of_noflush : ∀ (ops : List SL.ConnOp) (c : Conn), (∀ op ∈ ops, isFlush op = false) → FlushOK c ops
+  | [], _, _ => trivial
+  | op :: rest, c, h =>
+    ⟨fun hf => (by
+        have := h op (List.mem_cons_self ..)
+        rw [this] at hf; cases hf),
+     fun c' _ => flushOK_of_noflush rest c' (fun o ho => h o (List.mem_cons_of_mem _ ho))⟩
+
+/-- without flushes no side condition remains -/
+theorem runOps_total_noflushP {P} (hP : GoodP P) (ops : List SL.ConnOp) (c : Conn) (h : c.InvP P)
+    (hv : ∀ op ∈ ops, ChanValid c op) (hn : ∀ op ∈ ops, isFlush op = false) :
+    ∃ c', SL.Conn.runOps c ops = .ok c' ∧ c'.InvP P ∧ c.SameChans c' :=
+  runOps_totalP hP ops c h hv (flushOK_of_noflush ops c hn)
+
+/-! ### executable checkers for the side conditions (used for concrete examples) -/
+
+def countersOKb (c : Conn) : Bool :=
+  c.sendRel.all (fun x => decide (x.2.nextId ≤ Varint.MAX + 1) && decide (x.2.maxMem ≤ Varint.MAX)) &&
+  c.sendUnrel.all (fun x => decide (x.2.slicedId + x.2.queue.length ≤ Varint.MAX + 1) &&
+    decide (x.2.maxMem ≤ Varint.MAX)) &&
+  decide (c.flushSeq ≤ Varint.MAX + 1)
+
+theorem countersOK_of_b {c : Conn} (h : countersOKb c = true) : c.CountersOK := by
+  simp only [countersOKb, Bool.and_eq_true, List.all_eq_true, decide_eq_true_eq] at h
+  obtain ⟨⟨h1, h2⟩, h3⟩ := h
+  exact ⟨fun ch s hf => h1 _ (SMap.mem_of_find? hf), fun ch s hf => h2 _ (SMap.mem_of_find? hf), h3⟩
+
+def flushOKb (c : Conn) : List SL.ConnOp → Bool
+  | [] => true
+  | op :: rest => (!isFlush op || countersOKb c) &&
+    (match op.apply c with
+     | .ok c' => flushOKb c' rest
+     | _ => true)
+
+theorem flushOK_of_b : ∀ (ops : List SL.ConnOp) (c : Conn), flushOKb c ops = true → FlushOK c ops
+  | [], _, _ => trivial
+  | op :: rest, c, h => by
+    simp only [flushOKb, Bool.and_eq_true, Bool.or_eq_true, Bool.not_eq_true'] at h
+    refine ⟨fun hf => ?_, fun c' e => ?_⟩
+    · rcases h.1 with h1 | h1
+      · rw [h1] at hf; cases hf
+      · exact countersOK_of_b h1
+    · have := h.2
+      rw [e] at this
+      exact flushOK_of_b rest c' this
+
+instance (c : Conn) (ch : Nat) : Decidable (c.hasSend ch) := by unfold Conn.hasSend; infer_instance
+instance (c : Conn) (ch : Nat) : Decidable (c.hasRecv ch) := by unfold Conn.hasRecv; infer_instance
+
+/-- the channels of a fresh connection are exactly the configured ones -/
+theorem fromChannels_hasSend (budget : Nat) (send recv : List ChanCfg) (ch : Nat) (h : ch ∈ send.map (·.id)) :
+    (Conn.fromChannels budget send recv).hasSend ch := by
+  obtain ⟨cfg, hcfg, rfl⟩ := List.mem_map.mp h
+  unfold Conn.hasSend
+  rw [ne_none_iff_isSome, ne_none_iff_isSome]
+  by_cases hk : cfg.kind = .unreliable
+  · right
+    exact SI.foldl_insert_isSome (fun c : ChanCfg => c.id) (fun c => SendUnrel.new c.id c.maxMem) _ _ _
+      (Or.inr ⟨cfg, List.mem_filter.mpr ⟨hcfg, by simp [hk]⟩, rfl⟩)
+  · left
+    exact SI.foldl_insert_isSome (fun c : ChanCfg => c.id) (fun c => SendRel.new c.id c.resend c.maxMem) _ _ _
+      (Or.inr ⟨cfg, List.mem_filter.mpr ⟨hcfg, by simp [hk]⟩, rfl⟩)
+
+theorem fromChannels_hasRecv (budget : Nat) (send recv : List ChanCfg) (ch : Nat) (h : ch ∈ recv.map (·.id)) :
+    (Conn.fromChannels budget send recv).hasRecv ch := by
+  obtain ⟨cfg, hcfg, rfl⟩ := List.mem_map.mp h
+  unfold Conn.hasRecv
+  rw [ne_none_iff_isSome, ne_none_iff_isSome]
+  by_cases hk : cfg.kind = .unreliable
+  · right
+    exact SI.foldl_insert_isSome (fun c : ChanCfg => c.id) (fun c => RecvUnrel.new c.id c.maxMem) _ _ _
+      (Or.inr ⟨cfg, List.mem_filter.mpr ⟨hcfg, by simp [hk]⟩, rfl⟩)
+  · left
+    exact SI.foldl_insert_isSome (fun c : ChanCfg => c.id) (fun c => RecvRel.new c.maxMem (c.kind == .ordered)) _ _ _
+      (Or.inr ⟨cfg, List.mem_filter.mpr ⟨hcfg, by simp [hk]⟩, rfl⟩)
+
+/-- channel ids taken from the configuration -/
+def CfgValid (send recv : List ChanCfg) : SL.ConnOp → Prop
+  | .sendMessage ch _ => ch ∈ send.map (·.id)
+  | .receiveMessage ch => ch ∈ recv.map (·.id)
+  | _ => True
+
+theorem CfgValid.chanValid {budget : Nat} {send recv : List ChanCfg} {op : SL.ConnOp} (h : CfgValid send recv op) :
+    ChanValid (Conn.fromChannels budget send recv) op := by
+  cases op <;> first | trivial | exact fromChannels_hasSend _ _ _ _ h | exact fromChannels_hasRecv _ _ _ _ h
+
+
+/-! ## the server -/
+
+end CI
+
+/-- every connection of the table satisfies the connection invariant and has exactly the channels the server
+    configures for its clients -/
+structure Server.InvP (P : SliceCtor → Prop) (s : Server) : Prop where
+  conns : ∀ x ∈ s.conns, x.2.InvP P
+  chans : ∀ x ∈ s.conns, s.newConn.SameChans x.2
+
+def Server.Inv (s : Server) : Prop := s.InvP SliceCtor.WInv
+def Server.SInv (s : Server) : Prop := s.InvP SliceCtor.Inv
+
+namespace CI
+
+theorem server_new_invP {P} (budget : Nat) (sc cc : List ChanCfg) : (Server.new budget sc cc).InvP P :=
+  ⟨fun _ hx => (by cases hx), fun _ hx => (by cases hx)⟩
+
+theorem _root_.RenetVerif.Server.InvP.find {P} {s : Server} (h : s.InvP P) {i : Nat} {c : Conn}
+    (hf : SMap.find? s.conns i = some c) : c.InvP P ∧ s.newConn.SameChans c :=
+  ⟨h.conns _ (SMap.mem_of_find? hf), h.chans _ (SMap.mem_of_find? hf)⟩
+
+theorem _root_.RenetVerif.Server.InvP.setConn {P} {s : Server} (h : s.InvP P) (i : Nat) {c' : Conn} (hc : c'.InvP P)
+    (hs : s.newConn.SameChans c') : ({ s with conns := SMap.insert s.conns i c' } : Server).InvP P :=
+  ⟨forall_insert h.conns i hc, forall_insert (Q := fun c => s.newConn.SameChans c) h.chans i hs⟩
+
+theorem server_addConnection_invP {P} {s : Server} (h : s.InvP P) (id : Nat) : (s.addConnection id).InvP P := by
+  unfold Server.addConnection
+  split
+  · exact h
+  · exact ⟨forall_insert h.conns id (fromChannels_invP _ _ _).setConnected,
+      forall_insert (Q := fun c => s.newConn.SameChans c) h.chans id (sameChans_setConnected _)⟩
+
+theorem server_removeConnection_invP {P} {s : Server} (h : s.InvP P) (id : Nat) : (s.removeConnection id).InvP P := by
+  unfold Server.removeConnection
+  split
+  · exact h
+  · exact ⟨fun x hx => h.conns x (SMap.mem_erase hx), fun x hx => h.chans x (SMap.mem_erase hx)⟩
+
+theorem server_disconnect_invP {P} {s : Server} (h : s.InvP P) (id : Nat) : (s.disconnect id).InvP P := by
+  unfold Server.disconnect
+  split
+  · exact h
+  · rename_i c hf
+    obtain ⟨i, sc⟩ := h.find hf
+    exact h.setConn id (i.disconnectWith _) (sameChans_dw_of sc _)
+
+theorem server_disconnectAll_invP {P} {s : Server} (h : s.InvP P) : s.disconnectAll.InvP P := by
+  unfold Server.disconnectAll
+  constructor
+  · intro x hx
+    obtain ⟨y, hy, rfl⟩ := List.mem_map.mp hx
+    exact (h.conns y hy).disconnectWith _
+  · intro x hx
+    obtain ⟨y, hy, rfl⟩ := List.mem_map.mp hx
+    exact sameChans_dw_of (h.chans y hy) _
+
+theorem server_getEvent_invP {P} {s : Server} (h : s.InvP P) : s.getEvent.1.InvP P := by
+  unfold Server.getEvent
+  split
+  · exact h
+  · exact ⟨h.conns, h.chans⟩
+
+/-- **C06, server.**  Whatever bytes are attributed to whatever client id: `process_packet_from` returns normally;
+    the server invariant holds again; only slot `id` of the table can differ (`Addressed`), no connection appears or
+    disappears and every other connection — indeed every connection that was already disconnected — keeps its status
+    (`QuietC`); the addressed connection has processed the packet or is disconnected with a reason. -/
+theorem server_processPacketFrom_totalP {P} (hP : GoodP P) {s : Server} (h : s.InvP P) (bytes : Bytes) (i : Nat) :
+    ∃ s' ok, s.processPacketFrom bytes i = .ok (s', ok) ∧ s'.InvP P ∧ SL.Server.Addressed i s s' ∧
+      SL.QuietC s.conns s'.conns ∧
+      ((SMap.find? s.conns i = none ∧ s' = s ∧ ok = false) ∨
+       (∃ c c', SMap.find? s.conns i = some c ∧ c.processPacket bytes = .ok c' ∧ ok = true ∧
+          SMap.find? s'.conns i = some c' ∧ (c'.status = c.status ∨ ∃ r, c'.status = .disconnected r))) := by
+  cases hf : SMap.find? s.conns i with
+  | none =>
+    have e : s.processPacketFrom bytes i = .ok (s, false) := by unfold Server.processPacketFrom; rw [hf]
+    exact ⟨s, false, e, h, SL.Server.Addressed.refl i s, SL.QuietC.refl _, Or.inl ⟨rfl, rfl, rfl⟩⟩
+  | some c =>
+    obtain ⟨ic, sc⟩ := h.find hf
+    obtain ⟨c', e', i', st, sc'⟩ := processPacket_totalP hP ic bytes
+    have e : s.processPacketFrom bytes i = .ok ({ s with conns := SMap.insert s.conns i c' }, true) := by
+      unfold Server.processPacketFrom; rw [hf]; simp only [e', Res.bind_ok, Res.pure_eq]
+    obtain ⟨ad, q, -⟩ := SL.Server.processPacketFrom_spec e
+    exact ⟨_, true, e, h.setConn i i' (sc.trans sc'), ad, q,
+      Or.inr ⟨c, c', rfl, e', rfl, SL.SMap.find?_insert_self _ _ _, st⟩⟩
+
+theorem server_sendMessage_totalP {P} {s : Server} (h : s.InvP P) (i ch : Nat) (m : Bytes)
+    (hch : s.newConn.hasSend ch) :
+    ∃ s', s.sendMessage i ch m = .ok s' ∧ s'.InvP P ∧ SL.Server.Addressed i s s' ∧ SL.QuietC s.conns s'.conns := by
+  cases hf : SMap.find? s.conns i with
+  | none =>
+    have e : s.sendMessage i ch m = .ok s := by unfold Server.sendMessage; rw [hf]
+    exact ⟨s, e, h, SL.Server.Addressed.refl i s, SL.QuietC.refl _⟩
+  | some c =>
+    obtain ⟨ic, sc⟩ := h.find hf
+    obtain ⟨c', e', i', -, sc'⟩ := sendMessage_totalP ic ch m ((sc.hasSend ch).mpr hch)
+    have e : s.sendMessage i ch m = .ok { s with conns := SMap.insert s.conns i c' } := by
+      unfold Server.sendMessage; rw [hf]; simp only [e', Res.bind_ok, Res.pure_eq]
+    obtain ⟨ad, q, -⟩ := SL.Server.sendMessage_spec e
+    exact ⟨_, e, h.setConn i i' (sc.trans sc'), ad, q⟩
+
+theorem server_receiveMessage_totalP {P} {s : Server} (h : s.InvP P) (i ch : Nat) (hch : s.newConn.hasRecv ch) :
+    ∃ s' m, s.receiveMessage i ch = .ok (s', m) ∧ s'.InvP P ∧ SL.Server.Addressed i s s' ∧
+      SL.QuietC s.conns s'.conns := by
+  cases hf : SMap.find? s.conns i with
+  | none =>
+    have e : s.receiveMessage i ch = .ok (s, none) := by unfold Server.receiveMessage; rw [hf]
+    exact ⟨s, none, e, h, SL.Server.Addressed.refl i s, SL.QuietC.refl _⟩
+  | some c =>
+    obtain ⟨ic, sc⟩ := h.find hf
+    obtain ⟨c', m, e', i', -, sc'⟩ := receiveMessage_totalP ic ch ((sc.hasRecv ch).mpr hch)
+    have e : s.receiveMessage i ch = .ok ({ s with conns := SMap.insert s.conns i c' }, m) := by
+      unfold Server.receiveMessage; rw [hf]; simp only [e', Res.bind_ok, Res.pure_eq]
+    obtain ⟨ad, q, -⟩ := SL.Server.receiveMessage_spec e
+    exact ⟨_, m, e, h.setConn i i' (sc.trans sc'), ad, q⟩
+
+theorem server_getPacketsToSend_totalP {P} {s : Server} (h : s.InvP P) (i : Nat)
+    (hc : ∀ c, SMap.find? s.conns i = some c → c.CountersOK) :
+    ∃ s' out, s.getPacketsToSend i = .ok (s', out) ∧ s'.InvP P ∧ SL.Server.Addressed i s s' ∧
+      SL.QuietC s.conns s'.conns ∧ (∀ ps, out = some ps → ∀ b ∈ ps, b.length ≤ NETCODE_MAX_PAYLOAD_BYTES) := by
+  cases hf : SMap.find? s.conns i with
+  | none =>
+    have e : s.getPacketsToSend i = .ok (s, none) := by unfold Server.getPacketsToSend; rw [hf]
+    exact ⟨s, none, e, h, SL.Server.Addressed.refl i s, SL.QuietC.refl _, fun _ hn => (by cases hn)⟩
+  | some c =>
+    obtain ⟨ic, sc⟩ := h.find hf
+    obtain ⟨c', out, e', i', -, hl⟩ := getPacketsToSend_totalP ic (hc c hf)
+    have e : s.getPacketsToSend i = .ok ({ s with conns := SMap.insert s.conns i c' }, some out) := by
+      unfold Server.getPacketsToSend; rw [hf]; simp only [e', Res.bind_ok, Res.pure_eq]
+    obtain ⟨ad, q, -⟩ := SL.Server.getPacketsToSend_spec e
+    exact ⟨_, some out, e, h.setConn i i' (sc.trans (getPacketsToSend_sameChansP ic e')), ad, q,
+      fun ps hps => by cases hps; exact hl⟩
+
+/-- a total, invariant-preserving function mapped over the table -/
+theorem mapConnsM_total {Q : Conn → Prop} (f : Nat → Conn → Res Empty Conn)
+    (hf : ∀ k c, Q c → ∃ c', f k c = .ok c' ∧ Q c') : ∀ (m : SMap Conn), (∀ x ∈ m, Q x.2) →
+    ∃ m', Server.mapConnsM f m = .ok m' ∧ ∀ x ∈ m', Q x.2
+  | [], _ => ⟨[], rfl, fun _ hx => (by cases hx)⟩
+  | (k, c) :: rest, h => by
+    obtain ⟨c', e1, q1⟩ := hf k c (h (k, c) (List.mem_cons_self ..))
+    obtain ⟨rest', e2, q2⟩ := mapConnsM_total f hf rest (fun x hx => h x (List.mem_cons_of_mem _ hx))
+    refine ⟨(k, c') :: rest', by simp only [Server.mapConnsM, e1, e2, Res.bind_ok, Res.pure_eq], ?_⟩
+    intro x hx
+    simp only [List.mem_cons] at hx
+    rcases hx with rfl | hx
+    · exact q1
+    · exact q2 x hx
+
+theorem server_update_totalP {P} {s : Server} (h : s.InvP P) (dt : Nat) :
+    ∃ s', s.update dt = .ok s' ∧ s'.InvP P ∧ s'.events = s.events ∧ SL.QuietC s.conns s'.conns := by
+  obtain ⟨m', e', q⟩ := mapConnsM_total (Q := fun c => c.InvP P ∧ s.newConn.SameChans c) (fun _ c => c.update dt)
+    (fun k c hq => by
+      obtain ⟨c', e, i, -, -, -, sc, -⟩ := update_totalP hq.1 dt
+      exact ⟨c', e, i, hq.2.trans sc⟩) s.conns (fun x hx => ⟨h.conns x hx, h.chans x hx⟩)
+  have e : s.update dt = .ok { s with conns := m' } := by
+    unfold Server.update; simp only [e', Res.bind_ok, Res.pure_eq]
+  obtain ⟨ev, qu, -⟩ := SL.Server.update_spec e
+  exact ⟨_, e, ⟨fun x hx => (q x hx).1, fun x hx => (q x hx).2⟩, ev, qu⟩
+
+theorem server_broadcast_totalP {P} {s : Server} (h : s.InvP P) (ch : Nat) (m : Bytes) (hch : s.newConn.hasSend ch) :
+    ∃ s', s.broadcast ch m = .ok s' ∧ s'.InvP P ∧ s'.events = s.events ∧ SL.QuietC s.conns s'.conns := by
+  obtain ⟨m', e', q⟩ := mapConnsM_total (Q := fun c => c.InvP P ∧ s.newConn.SameChans c)
+    (fun _ c => c.sendMessage ch m)
+    (fun k c hq => by
+      obtain ⟨c', e, i, -, sc⟩ := sendMessage_totalP hq.1 ch m ((hq.2.hasSend ch).mpr hch)
+      exact ⟨c', e, i, hq.2.trans sc⟩) s.conns (fun x hx => ⟨h.conns x hx, h.chans x hx⟩)
+  have e : s.broadcast ch m = .ok { s with conns := m' } := by
+    unfold Server.broadcast; simp only [e', Res.bind_ok, Res.pure_eq]
+  obtain ⟨ev, qu, -⟩ := SL.Server.broadcast_spec e
+  exact ⟨_, e, ⟨fun x hx => (q x hx).1, fun x hx => (q x hx).2⟩, ev, qu⟩
+
+theorem server_broadcastExcept_totalP {P} {s : Server} (h : s.InvP P) (ex ch : Nat) (m : Bytes)
+    (hch : s.newConn.hasSend ch) :
+    ∃ s', s.broadcastExcept ex ch m = .ok s' ∧ s'.InvP P ∧ s'.events = s.events ∧ SL.QuietC s.conns s'.conns ∧
+      SMap.find? s'.conns ex = SMap.find? s.conns ex := by
+  obtain ⟨m', e', q⟩ := mapConnsM_total (Q := fun c => c.InvP P ∧ s.newConn.SameChans c)
+    (fun k c => if k = ex then .ok c else c.sendMessage ch m)
+    (fun k c hq => by
+      by_cases hk : k = ex
+      · exact ⟨c, by simp only [hk, if_true], hq⟩
+      · obtain ⟨c', e, i, -, sc⟩ := sendMessage_totalP hq.1 ch m ((hq.2.hasSend ch).mpr hch)
+        exact ⟨c', by simp only [hk, if_false]; exact e, i, hq.2.trans sc⟩) s.conns
+    (fun x hx => ⟨h.conns x hx, h.chans x hx⟩)
+  have e : s.broadcastExcept ex ch m = .ok { s with conns := m' } := by
+    unfold Server.broadcastExcept; simp only [e', Res.bind_ok, Res.pure_eq]
+  obtain ⟨ev, qu, hex, -⟩ := SL.Server.broadcastExcept_spec e
+  exact ⟨_, e, ⟨fun x hx => (q x hx).1, fun x hx => (q x hx).2⟩, ev, qu, hex⟩
+
+
+/-! ## C09: memory accounting -/
+
+/-- (a) every channel's counter equals the bytes it actually holds and is within the configured maximum -/
+theorem memory_accountingP {P} {c : Conn} (h : c.InvP P) :
+    (∀ ch s, SMap.find? c.sendRel ch = some s → s.mem = SI.msum s.unacked ∧ s.mem ≤ s.maxMem) ∧
+    (∀ ch s, SMap.find? c.sendUnrel ch = some s → s.mem = sumLen s.queue ∧ s.mem ≤ s.maxMem) ∧
+    (∀ ch r, SMap.find? c.recvRel ch = some r →
+      r.mem = SMap.sumBy List.length r.messages + SMap.sumBy SliceCtor.reserved r.slices ∧ r.mem ≤ r.maxMem) ∧
+    (∀ ch r, SMap.find? c.recvUnrel ch = some r →
+      r.mem = sumLen r.messages + SMap.sumBy SliceCtor.reserved r.slices ∧ r.mem ≤ r.maxMem) :=
+  ⟨fun _ _ hf => ⟨(h.sendRel_find hf).1.mem, (h.sendRel_find hf).1.bound⟩,
+   fun _ _ hf => h.sendUnrel_find hf,
+   fun _ _ hf => ⟨(h.recvRel_find hf).acct, (h.recvRel_find hf).budget⟩,
+   fun _ _ hf => ⟨(h.recvUnrel_find hf).acct, (h.recvUnrel_find hf).budget⟩⟩
+
+/-- (c) handing a message to the application lowers the reliable channel's counter by exactly its length -/
+theorem recvRel_receive_mem {r r' : RecvRel} {m : Bytes} (h : r.receive = .ok (r', some m)) :
+    r.mem = r'.mem + m.length ∧ r'.maxMem = r.maxMem ∧ r'.slices = r.slices := by
+  unfold RecvRel.receive at h
+  split at h
+  · split at h
+    · cases h
+    · simp only [Res.csub] at h
+      split at h
+      · simp only [Res.bind_ok, Res.pure_eq, Res.ok.injEq, Prod.mk.injEq, Option.some.injEq] at h
+        obtain ⟨rfl, rfl⟩ := h
+        exact ⟨by dsimp only; omega, rfl, rfl⟩
+      · cases h
+  · split at h
+    · cases h
+    · simp only [Res.csub] at h
+      split at h
+      · simp only [Res.bind_ok, Res.pure_eq, Res.ok.injEq, Prod.mk.injEq, Option.some.injEq] at h
+        obtain ⟨rfl, rfl⟩ := h
+        exact ⟨by dsimp only; omega, rfl, rfl⟩
+      · cases h
+
+theorem recvRel_receive_none {r r' : RecvRel} (h : r.receive = .ok (r', none)) : r' = r := by
+  unfold RecvRel.receive at h
+  split at h
+  · split at h
+    · cases h; rfl
+    · simp only [Res.csub] at h
+      split at h
+      · simp only [Res.bind_ok, Res.pure_eq, Res.ok.injEq, Prod.mk.injEq] at h
+        obtain ⟨-, h2⟩ := h; cases h2
+      · cases h
+  · split at h
+    · cases h; rfl
+    · simp only [Res.csub] at h
+      split at h
+      · simp only [Res.bind_ok, Res.pure_eq, Res.ok.injEq, Prod.mk.injEq] at h
+        obtain ⟨-, h2⟩ := h; cases h2
+      · cases h
+
+theorem recvUnrel_receive_mem {r r' : RecvUnrel} {m : Bytes} (h : r.receive = .ok (r', some m)) :
+    r.mem = r'.mem + m.length ∧ r'.maxMem = r.maxMem ∧ r'.slices = r.slices ∧ r.messages = m :: r'.messages := by
+  unfold RecvUnrel.receive at h
+  split at h
+  · cases h
+  · rename_i m0 rest hm
+    simp only [Res.csub] at h
+    split at h
+    · simp only [Res.bind_ok, Res.pure_eq, Res.ok.injEq, Prod.mk.injEq, Option.some.injEq] at h
+      obtain ⟨rfl, rfl⟩ := h
+      exact ⟨by dsimp only; omega, rfl, rfl, hm⟩
+    · cases h
+
+theorem recvUnrel_receive_none {r r' : RecvUnrel} (h : r.receive = .ok (r', none)) : r' = r := by
+  unfold RecvUnrel.receive at h
+  split at h
+  · cases h; rfl
+  · simp only [Res.csub] at h
+    split at h
+    · simp only [Res.bind_ok, Res.pure_eq, Res.ok.injEq, Prod.mk.injEq] at h
+      obtain ⟨-, h2⟩ := h; cases h2
+    · cases h
+
+/-- (c) at connection level: `receive_message` returning a message gives exactly its bytes back to channel `ch` -/
+theorem receiveMessage_returns_bytes {c c' : Conn} {ch : Nat} {m : Bytes}
+    (h : c.receiveMessage ch = .ok (c', some m)) :
+    (∃ r r', SMap.find? c.recvRel ch = some r ∧ SMap.find? c'.recvRel ch = some r' ∧
+        r.mem = r'.mem + m.length ∧ r'.maxMem = r.maxMem) ∨
+    (∃ r r', SMap.find? c.recvUnrel ch = some r ∧ SMap.find? c'.recvUnrel ch = some r' ∧
+        r.mem = r'.mem + m.length ∧ r'.maxMem = r.maxMem) := by
+  unfold Conn.receiveMessage at h
+  split at h
+  · cases h
+  · split at h
+    · rename_i r hf
+      cases hr : r.receive with
+      | ok x =>
+        obtain ⟨r', om⟩ := x
+        rw [hr] at h
+        simp only [Res.bind_ok, Res.pure_eq, Res.ok.injEq, Prod.mk.injEq] at h
+        obtain ⟨rfl, rfl⟩ := h
+        obtain ⟨a, b, -⟩ := recvRel_receive_mem hr
+        exact Or.inl ⟨r, r', hf, by rw [SMap.find?_insert, if_pos rfl], a, b⟩
+      | err e => exact e.elim
+      | panic s => rw [hr] at h; cases h
+    · split at h
+      · rename_i r hf
+        cases hr : r.receive with
+        | ok x =>
+          obtain ⟨r', om⟩ := x
+          rw [hr] at h
+          simp only [Res.bind_ok, Res.pure_eq, Res.ok.injEq, Prod.mk.injEq] at h
+          obtain ⟨rfl, rfl⟩ := h
+          obtain ⟨a, b, -⟩ := recvUnrel_receive_mem hr
+          exact Or.inr ⟨r, r', hf, by rw [SMap.find?_insert, if_pos rfl], a, b⟩
+        | err e => exact e.elim
+        | panic s => rw [hr] at h; cases h
+      · cases h
+
+/-- (e) quiescence: nothing unacknowledged, nothing queued, nothing waiting for the application, nothing partially
+    reassembled ⇒ every counter is zero and every send channel offers its whole budget again -/
+theorem quiescentP {P} {c : Conn} (h : c.InvP P)
+    (h1 : ∀ ch s, SMap.find? c.sendRel ch = some s → s.unacked = [])
+    (h2 : ∀ ch s, SMap.find? c.sendUnrel ch = some s → s.queue = [])
+    (h3 : ∀ ch r, SMap.find? c.recvRel ch = some r → r.messages = [] ∧ r.slices = [])
+    (h4 : ∀ ch r, SMap.find? c.recvUnrel ch = some r → r.messages = [] ∧ r.slices = []) :
+    (∀ ch s, SMap.find? c.sendRel ch = some s → s.mem = 0 ∧ c.availableMemory ch = .ok s.maxMem) ∧
+    (∀ ch s, SMap.find? c.sendUnrel ch = some s → s.mem = 0 ∧
+      (SMap.find? c.sendRel ch = none → c.availableMemory ch = .ok s.maxMem)) ∧
+    (∀ ch r, SMap.find? c.recvRel ch = some r → r.mem = 0) ∧
+    (∀ ch r, SMap.find? c.recvUnrel ch = some r → r.mem = 0) := by
+  refine ⟨fun ch s hf => ?_, fun ch s hf => ?_, fun ch r hf => ?_, fun ch r hf => ?_⟩
+  · have hm : s.mem = 0 := by rw [(h.sendRel_find hf).1.mem, h1 ch s hf]; rfl
+    refine ⟨hm, ?_⟩
+    simp only [Conn.availableMemory, hf, SendRel.available, hm, Nat.sub_zero]
+  · have hm : s.mem = 0 := by rw [(h.sendUnrel_find hf).1, h2 ch s hf]; rfl
+    refine ⟨hm, fun hn => ?_⟩
+    simp only [Conn.availableMemory, hn, hf, SendUnrel.available, hm, Nat.sub_zero]
+  · exact RecvRel.quiescent r (h.recvRel_find hf) (h3 ch r hf).1 (h3 ch r hf).2
+  · exact RecvUnrel.quiescent r (h.recvUnrel_find hf) (h4 ch r hf).1 (h4 ch r hf).2
+
+/-! ### (f) already-delivered / already-complete messages are ignored entirely (repaired defect D1) -/
+
+theorem recvRel_processSlice_ignored (r : RecvRel) (sl : Slice)
+    (h : SMap.contains r.messages sl.messageId = true ∨ sl.messageId < r.oldest ∨
+      (r.ordered = false ∧ sl.messageId ∈ r.received)) : r.processSlice sl = .ok r := by
+  rw [RecvRel.processSlice_eq]
+  rcases h with h | h | ⟨h1, h2⟩
+  · rw [if_pos (Or.inl h)]
+  · rw [if_pos (Or.inr h)]
+  · split
+    · rfl
+    · rw [if_pos ⟨by simp [h1], by simpa using h2⟩]
+
+theorem recvRel_processMessage_ignored (r : RecvRel) (m : Bytes) (id : Nat)
+    (h : id < r.oldest ∨ (r.ordered = true ∧ SMap.contains r.messages id = true) ∨
+      (r.ordered = false ∧ id ∈ r.received)) : r.processMessage m id = .ok r := by
+  unfold RecvRel.processMessage
+  rcases h with h | ⟨h1, h2⟩ | ⟨h1, h2⟩
+  · rw [if_pos h]
+  · by_cases h0 : id < r.oldest
+    · rw [if_pos h0]
+    · rw [if_neg h0, h1, if_pos rfl, h2, if_pos rfl]
+  · by_cases h0 : id < r.oldest
+    · rw [if_pos h0]
+    · have : r.received.contains id = true := by simpa using h2
+      rw [if_neg h0, h1, if_neg (by simp), this, if_pos rfl]
+
+/-! ### (g) a reliable receive channel refuses only what does not fit -/
+
+theorem bind_err_cases {ε α β : Type} {x : Res ε α} {f : α → Res ε β} {e : ε} (h : (x >>= f) = .err e) :
+    x = .err e ∨ ∃ a, x = .ok a ∧ f a = .err e := by
+  cases x with
+  | ok a => exact Or.inr ⟨a, rfl, h⟩
+  | err e' => simp only [Res.bind_err] at h; cases h; exact Or.inl rfl
+  | panic s => simp only [Res.bind_panic] at h; cases h
+
+theorem setRange_not_err {ε : Type} (l : Bytes) (start : Nat) (src : Bytes) (site : String) (e : ε) :
+    (setRange l start src site : Res ε Bytes) ≠ .err e := by
+  unfold setRange; split <;> intro h <;> cases h
+
+theorem ctor_err_invalid {c : SliceCtor} {idx : Nat} {bytes : Bytes} {e : ChanErr}
+    (h : c.processSlice idx bytes = .err e) : e = .invalidSlice := by
+  unfold SliceCtor.processSlice at h
+  split at h
+  · cases h; rfl
+  dsimp only at h
+  split at h
+  · cases h; rfl
+  split at h
+  · cases h; rfl
+  split at h
+  · cases h
+  · rename_i got hg
+    cases got with
+    | true =>
+      simp only [if_true, Res.pure_eq, Res.bind_ok] at h
+      split at h <;> cases h
+    | false =>
+      simp only [Bool.false_eq_true, if_false] at h
+      rcases bind_err_cases h with h1 | ⟨a, -, h2⟩
+      · exact absurd h1 (setRange_not_err _ _ _ _ _)
+      · simp only [Res.pure_eq, Res.bind_ok] at h2
+        split at h2 <;> cases h2
+
+theorem recvRel_processMessage_refusal (r : RecvRel) (m : Bytes) (id : Nat) (e : ChanErr) (r' : RecvRel)
+    (h : r.processMessage m id = .err (e, r')) : e = .maxMemory ∧ r' = r ∧ r.mem + m.length > r.maxMem := by
+  rcases RecvRel.processMessage_cases r m id with he | ⟨hgt, he⟩ | ⟨-, -, rec, he, -⟩
+  · rw [he] at h; cases h
+  · rw [he] at h; cases h; exact ⟨rfl, rfl, hgt⟩
+  · rw [he] at h; cases h
+
+/-- once the constructor exists, feeding it slices never fails for lack of memory -/
+theorem recvRel_sliceStep_no_maxMemory {P} (hP : CtorPred P) (r : RecvRel) (h : r.InvP P) (sl : Slice)
+    (hc : SMap.contains r.slices sl.messageId = true) (r' : RecvRel) : r.sliceStep sl ≠ .err (.maxMemory, r') := by
+  obtain ⟨c, hf⟩ := SMap.find?_of_contains hc
+  unfold RecvRel.sliceStep
+  rw [hf]
+  simp only []
+  by_cases hn : c.numSlices ≠ sl.numSlices
+  · rw [if_pos hn]; intro hx; cases hx
+  rw [if_neg hn]
+  rcases hP.step c (h.slicesOk.of_find? hf) sl.sliceIndex sl.payload with
+    ⟨e, he⟩ | ⟨c', he, -, -⟩ | ⟨c', m, he, hml, -⟩
+  · rw [he]; intro hx
+    have := ctor_err_invalid he
+    subst this; cases hx
+  · rw [he]; intro hx; cases hx
+  · rw [he]
+    simp only []
+    obtain ⟨hle, -⟩ := h.dropCtor hf
+    have hle' : c.numSlices * SLICE_SIZE ≤ r.mem := hle
+    unfold Res.csub
+    rw [if_pos hle']
+    simp only [Res.bind_ok]
+    have hbud := h.budget
+    rcases RecvRel.processMessage_cases
+        { r with mem := r.mem - c.numSlices * SLICE_SIZE, slices := SMap.insert r.slices sl.messageId c' }
+        m sl.messageId with he2 | ⟨hgt, _⟩ | ⟨-, -, rec, he2, -⟩
+    · rw [he2]; intro hx; cases hx
+    · exfalso
+      have : r.mem - c.numSlices * SLICE_SIZE + m.length > r.maxMem := hgt
+      omega
+    · rw [he2]; intro hx; cases hx
+
+/-- **refusal only over budget**: `ReliableChannelMaxMemoryReached` is returned only
+    * by `process_message` for a message that does not fit in what is left of the budget, or
+    * by `process_slice` for the FIRST slice seen of a message whose reservation `num_slices * SLICE_SIZE` does
+      not fit;
+    never for a slice of a message whose constructor already exists (its memory is already reserved), and never
+    at completion.  In both cases the channel state is unchanged. -/
+theorem refusal_only_over_budget {P} (hP : CtorPred P) (r : RecvRel) (h : r.InvP P) :
+    (∀ m id r', r.processMessage m id = .err (.maxMemory, r') → r' = r ∧ r.mem + m.length > r.maxMem) ∧
+    (∀ sl r', P (SliceCtor.new sl.numSlices) → r.processSlice sl = .err (.maxMemory, r') →
+      r' = r ∧ SMap.contains r.slices sl.messageId = false ∧ r.mem + sl.numSlices * SLICE_SIZE > r.maxMem) := by
+  refine ⟨fun m id r' he => (recvRel_processMessage_refusal r m id _ r' he).2, ?_⟩
+  intro sl r' hnew he
+  rw [RecvRel.processSlice_eq] at he
+  split at he
+  · cases he
+  split at he
+  · cases he
+  rcases RecvRel.reserveStep_spec r h sl hnew with hr | ⟨r1, hr, hr1, hc1, -⟩
+  · have hshape := hr
+    unfold RecvRel.reserveStep at hshape
+    split at hshape
+    · cases hshape
+    · rename_i hnc
+      simp only [] at hshape
+      split at hshape
+      · rename_i hgt
+        rw [hr] at he
+        simp only [Res.bind_err, Res.err.injEq, Prod.mk.injEq] at he
+        exact ⟨he.2.symm, by simpa using hnc, hgt⟩
+      · cases hshape
+  · rw [hr, Res.bind_ok] at he
+    exact absurd he (recvRel_sliceStep_no_maxMemory hP r1 hr1 sl hc1 r')
+
+/-- an unreliable receive channel never reports a memory error at all (what does not fit is dropped) -/
+theorem recvUnrel_never_refuses (r : RecvUnrel) (sl : Slice) (now : Nat) (e : ChanErr) (r' : RecvUnrel)
+    (h : r.processSlice sl now = .err (e, r')) : e = .invalidSlice := by
+  rw [RecvUnrel.processSlice_eq] at h
+  have key : ∀ r0 : RecvUnrel, r0.sliceStep sl now = .err (e, r') → e = .invalidSlice := by
+    intro r0 h0
+    unfold RecvUnrel.sliceStep at h0
+    split at h0
+    · cases h0
+    · split at h0
+      · cases h0; rfl
+      · split at h0
+        · cases h0
+        · rename_i e0 he0
+          cases h0
+          exact ctor_err_invalid he0
+        · simp only [Res.csub] at h0
+          split at h0
+          · cases h0
+          · cases h0
+        · cases h0
+  split at h
+  · exact key _ h
+  · split at h
+    · cases h
+    · exact key _ h
 
 end CI
 end RenetVerif
